@@ -103,11 +103,18 @@ func newEnv(t testing.TB) *env {
 	// the configured root string is spelled in several equivalent ways
 	spelled := root
 	envCounter++
-	switch envCounter % 3 {
+	switch envCounter % 4 {
 	case 1:
 		spelled = root + "/"
 	case 2:
 		spelled = filepath.Join(base, a) + "/./" + b + "//root"
+	case 3:
+		// relative to the working directory, as in `webdav-server ./public`
+		if wd, err := os.Getwd(); err == nil {
+			if rel, err := filepath.Rel(wd, root); err == nil {
+				spelled = "./" + rel
+			}
+		}
 	}
 	return &env{t: t, base: base, root: root, secrets: []string{a, b, root}, srv: NewServer(spelled), have: vfs.NewDir()}
 }
